@@ -1,15 +1,111 @@
 package main
 
 import (
+	"flag"
 	"fmt"
-	"golang.org/x/tools/go/packages"
-	"golang.org/x/tools/go/ssa/ssautil"
-	"golang.org/x/tools/go/ssa"
+	"os"
+	"sort"
+	"strings"
+
+	"gvc/internal/gvc"
 )
 
 func main() {
-	_ = packages.Load
-	_ = ssautil.Packages
-	_ = ssa.InstantiateGenerics
-	fmt.Println("ok")
+	if len(os.Args) < 2 {
+		fmt.Println("usage: gvc verify|check|replay ...")
+		os.Exit(2)
+	}
+	switch os.Args[1] {
+	case "verify":
+		cmdVerify(os.Args[2:])
+	case "check":
+		os.Exit(gvc.CmdCheck(os.Args[2:]))
+	case "replay":
+		os.Exit(gvc.CmdReplay(os.Args[2:]))
+	case "selftest":
+		os.Exit(gvc.CmdSelftest(os.Args[2:]))
+	default:
+		fmt.Println("unknown command", os.Args[1])
+		os.Exit(2)
+	}
+}
+
+// verify: developer tool — run one function and print every obligation.
+func cmdVerify(args []string) {
+	fs := flag.NewFlagSet("verify", flag.ExitOnError)
+	pkgs := fs.String("pkgs", "", "comma separated package patterns (relative to /repo)")
+	fn := fs.String("func", "", "canonical function name(s), comma separated")
+	extra := fs.String("contracts", "", "extra contract files")
+	timeout := fs.Int("t", 10000, "solver timeout ms")
+	list := fs.Bool("list", false, "list functions")
+	verbose := fs.Bool("v", false, "verbose")
+	fs.Parse(args)
+	P, err := gvc.LoadProgram(strings.Split(*pkgs, ","))
+	if err != nil {
+		fmt.Println("load error:", err)
+		os.Exit(2)
+	}
+	if err := P.LoadTrusted(); err != nil {
+		fmt.Println("trusted load error:", err)
+		os.Exit(2)
+	}
+	if *extra != "" {
+		if err := P.LoadExtraContracts(strings.Split(*extra, ",")...); err != nil {
+			fmt.Println(err)
+			os.Exit(2)
+		}
+	}
+	if *list {
+		var names []string
+		for n := range P.Funcs {
+			names = append(names, n)
+		}
+		sort.Strings(names)
+		for _, n := range names {
+			if strings.Contains(n, *fn) {
+				fmt.Println(n)
+			}
+		}
+		return
+	}
+	for _, name := range strings.Split(*fn, ",") {
+		rep := gvc.RunFunction(P, name, gvc.DefaultConfig(), gvc.SolveOpts{OutDir: "/verif/out/dev", TimeoutMs: *timeout})
+		fmt.Printf("== %s: paths=%d truncated=%v explore=%dms solve=%dms\n", name, rep.Paths, rep.Truncated, rep.ExploreMs, rep.SolveMs)
+		for _, u := range rep.Unsupported {
+			fmt.Println("  UNSUPPORTED:", u)
+		}
+		for _, r := range rep.Results {
+			fmt.Printf("  %-10s %-70s paths=%d %s %dms %s\n", r.Status, r.Name, r.Paths, r.Backend, r.Millis, r.Pos)
+			if r.Status != "discharged" && *verbose {
+				for _, t := range r.Trace {
+					fmt.Println("      |", t)
+				}
+				fmt.Println("      file:", r.File)
+				if r.Model != "" {
+					fmt.Println(indent(r.Model, "      "))
+				}
+			}
+		}
+		if *verbose {
+			for _, m := range []map[string]int{rep.Abstracted, rep.Trusted, rep.Inlined, rep.ByContract} {
+				var ks []string
+				for k := range m {
+					ks = append(ks, k)
+				}
+				sort.Strings(ks)
+				for _, k := range ks {
+					fmt.Printf("    %s x%d\n", k, m[k])
+				}
+				fmt.Println("    --")
+			}
+		}
+	}
+}
+
+func indent(s, p string) string {
+	lines := strings.Split(s, "\n")
+	if len(lines) > 60 {
+		lines = lines[:60]
+	}
+	return p + strings.Join(lines, "\n"+p)
 }
